@@ -478,5 +478,41 @@ func main() {
 				}
 			}
 		})
+
+		// The streaming reader's header decoder after an earlier stream ended in the middle of a
+		// header: given a new source (the Reader has no constructor; applications set Source), it
+		// decodes the new stream's first header exactly like the low-level decoder does - nothing
+		// of the abandoned header is carried over.
+		r.Part("E6-reader-with-a-new-source-after-a-cut-header", func(t *explore.T) {
+			var hs []refmodel.Hdr
+			for _, ln := range []uint64{0, 5, 126, 65536} {
+				for _, masked := range []bool{false, true} {
+					hs = append(hs, refmodel.Hdr{Fin: true, Rsv: 7, Op: 0xf, Masked: masked, Mask: masks[2], Len: ln}, refmodel.Hdr{Fin: false, Op: 1, Masked: masked, Mask: masks[1], Len: ln})
+				}
+			}
+			for _, h1 := range hs {
+				e1 := refmodel.HdrEncode(h1)
+				for k := 0; k < len(e1); k++ {
+					for _, h2 := range hs {
+						h1, h2, k := h1, h2, k
+						t.Do(func() string { return fmt.Sprintf("first stream: %d of %d bytes of hdr %s; new source: hdr %s", k, len(e1), h1, h2) }, func() *explore.Fail {
+							rd := &wsutil.Reader{Source: env.NewSrc(e1[:k]), SkipHeaderCheck: true}
+							if _, err := rd.NextFrame(); err == nil {
+								return explore.Failf("cut-header-no-error", "")
+							}
+							e2 := refmodel.HdrEncode(h2)
+							src := env.NewSrc(append(append([]byte{}, e2...), sentinel...))
+							rd.Source = src
+							g, err := rd.NextFrame()
+							if err != nil || !sameHdr(g, h2) || src.Off != len(e2) {
+								return explore.Failf("NextFrame-on-new-source-carries-old-bytes", "err=%v got %+v consuming %d; the new stream starts with %s (%d bytes)", err, g, src.Off, h2, len(e2))
+							}
+							return nil
+						})
+					}
+				}
+			}
+			t.Outcome("as-fresh")
+		})
 	})
 }
